@@ -160,6 +160,41 @@ func tmRow(r *rng, charset int) ([]byte, []tmRun, *tmRowSpec) {
 	return cells, runs, sp
 }
 
+// the structure of a row of stored cells: cells in front of the first start box, groups of attributes and of other
+// cells up to the end box, junk behind it (nil: no start box, or an attribute / start box behind the end box)
+func tmTokenize(cells []byte) *tmRowSpec {
+	attr := func(c byte) bool { return c < 8 || (c >= 0xc && c <= 0xf) }
+	i := bytes.IndexByte(cells, 0x0b)
+	if i < 0 {
+		return nil
+	}
+	sp := &tmRowSpec{Pre: append([]byte{}, cells[:i]...)}
+	rest := cells[i+1:]
+	if j := bytes.IndexByte(rest, 0x0a); j >= 0 {
+		sp.HasEnd = true
+		sp.End = append([]byte{}, rest[j+1:]...)
+		for _, c := range sp.End {
+			if attr(c) || c == 0x0b {
+				return nil
+			}
+		}
+		rest = rest[:j]
+	}
+	for k := 0; k < len(rest); {
+		var g tmSeg
+		for k < len(rest) && attr(rest[k]) {
+			g.Codes = append(g.Codes, rest[k])
+			k++
+		}
+		for k < len(rest) && !attr(rest[k]) {
+			g.Cells = append(g.Cells, rest[k])
+			k++
+		}
+		sp.Segs = append(sp.Segs, g)
+	}
+	return sp
+}
+
 // ---- units ------------------------------------------------------------------------------------------------
 
 func flipBit(r *rng, b byte) byte { return b ^ (1 << uint(r.intn(8))) }
@@ -323,10 +358,15 @@ type tmEv struct {
 	Kind int // 0 before the first instance, 1 header, 2 row, 3 cannot-matter unit while receiving, 4 terminating header, 5 after it
 	U    []byte
 }
+
+// a delivery as the Coq specification has it: 0 PUnits (time, identifier, N events, truncated trailing unit),
+// 1 PNoTime (payload), 2 PInert (time, payload)
 type tmPES struct {
+	Kind  int
 	T     int64
 	Ident byte
 	N     int
+	Raw   []byte
 }
 type tmInstSpec struct {
 	T    int64
@@ -373,8 +413,15 @@ func genTmCase(r *rng, wild bool) *tmCase {
 	flush := func() {
 		if cur != nil {
 			id := ident()
-			tc.Ds = append(tc.Ds, tmDelivery{T: t, Data: append([]byte{id}, cur...)})
-			tc.PESs = append(tc.PESs, tmPES{T: t, Ident: id, N: pending})
+			var trail []byte
+			if pesNoise && r.chance(1, 8) {
+				// the last unit of the payload is cut short
+				kinds["pes-truncated-unit"]++
+				u := rowPacket(mag, 4, []byte("\x0bTRUNCATED\x0a"))
+				trail = u[:r.intn(len(u))]
+			}
+			tc.Ds = append(tc.Ds, tmDelivery{T: t, Data: append(append([]byte{id}, cur...), trail...)})
+			tc.PESs = append(tc.PESs, tmPES{T: t, Ident: id, N: pending, Raw: trail})
 			cur, pending = nil, 0
 		}
 	}
@@ -394,30 +441,32 @@ func genTmCase(r *rng, wild bool) *tmCase {
 			}
 			if r.chance(1, 8) {
 				kinds["pes-without-time"]++
-				tc.SpecOK = false
 				d := []byte{ident()}
 				d = append(d, tmHeaderUnit(r, tmHeader{mag: mag, tens: page / 10, units: page % 10, subtitle: true, serial: serial})...)
 				d = append(d, rowPacket(mag, 3, []byte("\x0bNO TIME\x0a"))...)
 				tc.Ds = append(tc.Ds, tmDelivery{T: -1, Data: d})
+				tc.PESs = append(tc.PESs, tmPES{Kind: 1, Raw: d})
 			}
 			if r.chance(1, 8) {
 				kinds["pes-other-identifier"]++
-				tc.SpecOK = false
 				d := []byte{[]byte{0x00, 0x0f, 0x20, 0x99, 0xff}[r.intn(5)]}
 				d = append(d, tmHeaderUnit(r, tmHeader{mag: mag, tens: page / 10, units: page % 10, subtitle: true, serial: serial})...)
 				d = append(d, rowPacket(mag, 3, []byte("\x0bNOT EBU\x0a"))...)
 				tc.Ds = append(tc.Ds, tmDelivery{T: t, Data: d})
+				tc.PESs = append(tc.PESs, tmPES{Kind: 2, T: t, Raw: d})
 			}
 			if r.chance(1, 12) {
 				kinds["pes-empty"]++
-				tc.SpecOK = false
 				tc.Ds = append(tc.Ds, tmDelivery{T: t, Data: nil})
+				tc.PESs = append(tc.PESs, tmPES{Kind: 2, T: t})
 			}
 			if r.chance(1, 12) {
 				kinds["pes-truncated-unit"]++
-				tc.SpecOK = false
 				u := rowPacket(mag, 4, []byte("\x0bTRUNCATED\x0a"))
-				tc.Ds = append(tc.Ds, tmDelivery{T: t, Data: append([]byte{ident()}, u[:2+r.intn(len(u)-2)]...)})
+				id := ident()
+				tr := u[:r.intn(len(u))]
+				tc.Ds = append(tc.Ds, tmDelivery{T: t, Data: append([]byte{id}, tr...)})
+				tc.PESs = append(tc.PESs, tmPES{T: t, Ident: id, Raw: tr})
 			}
 		}
 	}
@@ -550,10 +599,28 @@ func genTmCase(r *rng, wild bool) *tmCase {
 				u := tmRowUnit(r, mag, row, cells)
 				if parityCase && r.chance(1, 2) {
 					// a cell failing parity: it reaches the row parser as 0x00
-					kinds["parity-error"]++
-					k := r.intn(40)
-					u[6+k] = flipBit(r, u[6+k])
-					tc.Oracle = false // the expected runs are computed for intact cells
+					limit := 40
+					if j := bytes.IndexByte(cells, 0x0a); j >= 0 {
+						limit = j + 1 // up to and including the end box
+					}
+					stored := append([]byte{}, cells...)
+					hit := map[int]bool{}
+					for n := 1 + r.intn(3); n > 0; n-- {
+						k := r.intn(limit)
+						if hit[k] {
+							continue // already damaged: a second flipped bit would pass the parity check
+						}
+						hit[k] = true
+						kinds["parity-error"]++
+						u[6+k] = flipBit(r, u[6+k])
+						stored[k] = 0
+					}
+					tc.Oracle = false // the expected runs of the Go ground truth are computed for intact cells
+					// for the Coq specification the row is what its stored cells say
+					if rsp = tmTokenize(stored); rsp == nil {
+						tc.SpecOK = false
+						rsp = &tmRowSpec{}
+					}
 				}
 				kinds["row"]++
 				op.rows[row] = runs
@@ -752,7 +819,14 @@ func (tc *tmCase) specInput() (string, bool) {
 	}
 	e.n(len(tc.PESs))
 	for _, p := range tc.PESs {
-		e.i(p.T * 1e6).n(int(p.Ident)).n(p.N)
+		switch p.Kind {
+		case 0:
+			e.n(0).i(p.T * 1e6).n(int(p.Ident)).n(p.N).bytes(p.Raw)
+		case 1:
+			e.n(1).bytes(p.Raw)
+		default:
+			e.n(2).i(p.T * 1e6).bytes(p.Raw)
+		}
 	}
 	return e.String(), ok
 }
@@ -926,7 +1000,7 @@ func tmTS(pid uint16, ds []tmDelivery) ([]byte, error) {
 }
 
 func suiteTeletextModel(R *runner, r *rng) {
-	R.rule("teletext feeder: ground-truth schedules (1..5 instances of one page in magazines 1..8, 1..4 distinct rows at 1..24, boxed text over G0 incl. the national option positions of the English/French/German sets and of option code 7, option changing between instances, colour and size codes in front of and inside the box, unboxed junk, erase pages, presentation times) x multiplexing (PES boundaries anywhere, data identifiers 0x10..0x1f, in serial and parallel mode: headers of other magazines between our rows (parallel), same page number in another magazine, terminating headers of other pages of the same magazine / of any magazine (serial) followed by rows of our magazine, pages with hexadecimal digits incl. those whose weighted sum equals our page number, stuffing / non-subtitle / wrong-framing / short units, uncorrectable and corrected Hamming bytes, rows of other magazines, X/26 X/27 X/28 M/29 X/30 X/31, time-filling headers, PES without time / with another data identifier / empty / truncated, trailing PES) x reader option (page given or auto-detected); the Coq model ttx_feed vs the hook VerifTeletextFeed on the same delivered list (all observables incl. spaces before/after), the schedule oracle on the hook's result and, for a third of the cases, on ReadFromTeletext over the astits-muxed stream; the same case re-expressed as schedule x multiplexing x PES grouping of the Coq specification: the extracted mux_ok / mux_ok_auto decides membership in the class of the stream theorems (outside it: counted, class comparison only) and the extracted cues_of must equal the implementation's result; 'wild' cases (character set designations, duplicated rows, control codes, hex page digits, non-monotone times, byte noise, truncation) and hostile payloads: model vs implementation only; non-trivial = at least one cue expected (generated) / at least one delivery (hostile)")
+	R.rule("teletext feeder: ground-truth schedules (1..5 instances of one page in magazines 1..8, 1..4 distinct rows at 1..24, boxed text over G0 incl. the national option positions of the English/French/German sets and of option code 7, option changing between instances, colour and size codes in front of and inside the box, unboxed junk, erase pages, presentation times) x multiplexing (PES boundaries anywhere, data identifiers 0x10..0x1f, in serial and parallel mode: headers of other magazines between our rows (parallel), same page number in another magazine, terminating headers of other pages of the same magazine / of any magazine (serial) followed by rows of our magazine, pages with hexadecimal digits incl. those whose weighted sum equals our page number, stuffing / non-subtitle / wrong-framing / short units, uncorrectable and corrected Hamming bytes, rows of other magazines, X/26 X/27 X/28 M/29 X/30 X/31, time-filling headers, PES without time / with another data identifier / empty / truncated, trailing PES) x reader option (page given or auto-detected); the Coq model ttx_feed vs the hook VerifTeletextFeed on the same delivered list (all observables incl. spaces before/after), the schedule oracle on the hook's result and, for a third of the cases, on ReadFromTeletext over the astits-muxed stream; the same case re-expressed as schedule x multiplexing x PES grouping of the Coq specification: incl. the PES-level noise (packets without time, foreign data identifier, empty payload, truncated last unit) and rows with 1..3 parity-damaged cells (the row's specification is then read off its stored cells); the extracted mux_ok / mux_ok_auto decides membership in the class of the stream theorems (outside it: counted, class comparison only; not submitted: a row whose only start box was destroyed) and the extracted cues_of must equal the implementation's result; 'wild' cases (character set designations, duplicated rows, control codes, hex page digits, non-monotone times, byte noise, truncation) and hostile payloads: model vs implementation only; non-trivial = at least one cue expected (generated) / at least one delivery (hostile)")
 	N, H := 900, 1500
 	if R.tier == "thorough" {
 		N, H = 12000, 20000
